@@ -93,6 +93,21 @@ Example poa_cache_history_nontrivial :
   option_map ce_sat (pget N N.eqb c4 4) = Some [].
 Proof. vm_compute. repeat split; reflexivity. Qed.
 
+(* the same history with an LRU that loses entries between validations (here: everything, twice) *)
+Definition x_lossy_steps : list ((pcache N -> pcache N) * (N * N)) :=
+  [(fun c => c, (0, 1)); (fun c => c, (1, 2)); (fun _ => [], (2, 3)); (fun c => c, (3, 4)); (fun _ => [], (3, 4)); (fun c => c, (2, 3))].
+
+Example poa_cache_lossy_instance :
+  poa_run_lossy N N.eqb (list acand) x_all x_funded x_mbp (fun _ => false) x_judge [] x_lossy_steps =
+  map (fun s => poa_fresh N x_all x_funded x_mbp (fst (snd s))) x_lossy_steps.
+Proof.
+  rewrite (poa_run_lossy_is_cold N N.eqb N.eqb_eq (list acand) x_child x_all x_funded x_mbp (fun _ => false) x_judge x_hyp1 x_hyp2
+             x_lossy_steps [] ltac:(intros b e X; discriminate)).
+  - reflexivity.
+  - unfold x_lossy_steps, x_child, only_loses_p.
+    repeat constructor; cbn [fst snd]; try lia; try (intros c b e X; exact X); try (intros c b e X; discriminate X).
+Qed.
+
 (* ================================================================ PoS: blocks 0 -> 1 -> 2 -> 3 *)
 Definition L1 := mkC (mkP 1 true 60) 0 0 None.
 Definition L2 := mkC (mkP 2 true 40) 0 0 None.
